@@ -64,6 +64,7 @@ def generate(st):
         'p_change': sw.choice([0.0, 0.3, 0.7]),
         'allow_unvalued_expired': sw.random() < 0.1,
         'use_expiry': sw.random() < 0.85,
+        'dict_output': sw.random() < 0.25,
     }
     pool = KEYPOOL_I if cfg['keys_int'] else KEYPOOL_S
 
@@ -230,7 +231,7 @@ def model_join(on, inputs, defaults):
 # ----------------------------------------------------------------------------------------------
 # execution
 # ----------------------------------------------------------------------------------------------
-def _make_f(params, ledger):
+def _make_f(params, ledger, dict_output=False):
     """a real def with the drawn signature; records every call; the value carries the call number so a kept
     value can be told from a recomputed one"""
     sig = ', '.join(p['name'] if 'default' not in p else '%s=%r' % (p['name'], p['default']) for p in params)
@@ -241,7 +242,18 @@ def _make_f(params, ledger):
            "    return 'v#%%d:%%s' %% (len(ledger), '|'.join('%%s=%%r' %% (k, args[k]) for k in sorted(args)))\n") % (sig, body)
     ns = {'ledger': ledger}
     exec(src, ns)
-    return ns['f']
+    f = ns['f']
+    if not dict_output:
+        return f
+    # a function with an `output` attribute returns a dict with those keys; both values come from ONE evaluation
+    src2 = ("def f2(%s):\n"
+            "    v = f(%s)\n"
+            "    return {'data': v, 'aux': 'A' + v}\n") % (sig, ', '.join('%s=%s' % (p['name'], p['name']) for p in params))
+    ns2 = {'f': f}
+    exec(src2, ns2)
+    f2 = ns2['f2']
+    f2.output = ['data', 'aux']
+    return f2
 
 
 def execute(trace, ctx=None):
@@ -253,7 +265,8 @@ def execute(trace, ctx=None):
     names = [p['name'] for p in params]
     SimClock.reset(datetime.datetime.fromisoformat(cfg['origin']))
     ledger = []
-    f = _make_f(params, ledger)
+    dict_mode = bool(cfg.get('dict_output'))
+    f = _make_f(params, ledger, dict_mode)
     kwargs = {'on': list(on)}
     if cfg.get('defaults') is not None:
         kwargs['defaults'] = dict(cfg['defaults'])
@@ -337,8 +350,12 @@ def execute(trace, ctx=None):
                     res.fault('state_loss')
                 supplied = {kt: prev[kt] for kt in keep}
                 call['data'] = table(on, [list(kt) for kt in keep], 'data', [prev[kt] for kt in keep])
+                if dict_mode:
+                    call['aux'] = table(on, [list(kt) for kt in keep], 'aux', ['A' + prev[kt] if isinstance(prev[kt], str) else prev[kt] for kt in keep])
             elif has_table and data_mode == 'none':
                 call['data'] = None
+                if dict_mode:
+                    call['aux'] = None
                 if prev:
                     res.fault('state_loss')
             elif has_table and data_mode in ('prev', 'omit') and prev:
@@ -352,7 +369,7 @@ def execute(trace, ctx=None):
                 e = op['expiry']
                 if 'scalar' in e:
                     exp_scalar = dec(e['scalar'])
-                    if not allow and exp_scalar < today and any(kt not in supplied for kt in row_keys):
+                    if not allow and exp_scalar < today + datetime.timedelta(days=1) and any(kt not in supplied for kt in row_keys):
                         exp_scalar = None       # see below
                         res.stat('expiry-withheld(known finding not provoked)')
                     else:
@@ -363,7 +380,7 @@ def execute(trace, ctx=None):
                     for kk, v in rows:
                         # a past expiry for a key without a previous value provokes the recorded finding
                         # (expired-row-without-previous-value-not-computed); only a tenth of the runs do that on purpose
-                        if not allow and v is not None and v < today and kk not in supplied and not cfg.get('if_none'):
+                        if not allow and v is not None and v < today + datetime.timedelta(days=1) and kk not in supplied and not cfg.get('if_none'):
                             res.stat('expiry-withheld(known finding not provoked)')
                             continue
                         seen.setdefault(kk, v)
@@ -388,6 +405,8 @@ def execute(trace, ctx=None):
                 if len(calls) != 1:
                     raise Violation('scalar-call-count', 'all-scalar call evaluated f %d times' % len(calls), k)
                 exp_args = {q['name']: call.get(q['name'], q.get('default')) for q in params}
+                if dict_mode and isinstance(out, dict) and sorted(out) == ['aux', 'data'] and out['aux'] == 'A' + str(out['data']):
+                    out = out['data']
                 if calls[0] != exp_args or not isinstance(out, str) or not out.startswith('v#%d:' % len(ledger)):
                     raise Violation('scalar-call-result', 'all-scalar call returned %r after calling f with %r (expected args %r)' % (out, calls[0], exp_args), k)
                 continue
@@ -398,6 +417,20 @@ def execute(trace, ctx=None):
                     raise Violation('empty-join-called-f', 'the join has no row but f was called %d times' % len(calls), k)
                 prev, prev_table = {}, None
                 continue
+            if dict_mode:
+                res.probe('dict-output-call')
+                if not isinstance(out, dict) or sorted(out.keys()) != ['aux', 'data'] or not all(is_dictable_like(v) for v in out.values()):
+                    raise Violation('result-shape', 'keyed call of a dict-output function returned %r' % (type(out).__name__,), k)
+                ka = [tuple(r[c] for c in on) for r in out['aux']]
+                kb = [tuple(r[c] for c in on) for r in out['data']]
+                if ka != kb:
+                    raise Violation('result-shape', 'the output tables disagree on their keys: %s vs %s' % (kb, ka), k)
+                for ra, rb in zip(out['aux'], out['data']):
+                    a, b = ra['aux'], rb['data']
+                    if not ((a is None and b is None) or (isinstance(b, str) and a == 'A' + b)):
+                        raise Violation('outputs-from-different-evaluations', 'key %s: data=%r aux=%r do not come from one evaluation of f'
+                                        % (tuple(rb[c] for c in on), b, a), k)
+                out = out['data']
             if not is_dictable_like(out):
                 raise Violation('result-shape', 'keyed call returned %s instead of a table' % type(out).__name__, k)
             got_rows = list(out)
@@ -470,6 +503,11 @@ def execute(trace, ctx=None):
                         expect_calls = 0
                     elif computed_ok():
                         expect_calls = 1
+                    elif got is None and not has_prev and not idx and not cfg.get('if_none'):
+                        # "today" read as already expired + no previous value: the recorded finding
+                        raise Violation('expired-row-without-previous-value-not-computed',
+                                        'key %s: expiry %s counts as expired on %s, no previous value was supplied (data=%s), if_none=False: '
+                                        'f was not called and the row holds None' % (kt, e, today, data_mode), k)
                     else:
                         raise Violation('row-value', 'key %s (expiry today): got %r, neither the previous value nor a fresh f(%s)' % (kt, got, _fmt_args(args)), k)
                 else:
@@ -539,7 +577,7 @@ def shrink_candidates(trace):
                 if inp['col'] != nm:
                     t = copy.deepcopy(trace); t['ops'][k]['inputs'][nm]['col'] = nm; yield t
     cfg = trace['cfg']
-    for key in ('if_none', 'include_inputs'):
+    for key in ('if_none', 'include_inputs', 'dict_output'):
         if cfg.get(key):
             t = copy.deepcopy(trace); t['cfg'][key] = False; yield t
     if cfg.get('defaults') is not None:
@@ -568,7 +606,7 @@ def size(trace):
         elif op['s'] not in (0, DAY):
             s += 1
     cfg = trace['cfg']
-    s += 5 * len(cfg['params']) + 3 * bool(cfg.get('if_none')) + 3 * bool(cfg.get('include_inputs')) + 3 * (cfg.get('defaults') is not None)
+    s += 5 * len(cfg['params']) + 3 * bool(cfg.get('if_none')) + 3 * bool(cfg.get('include_inputs')) + 3 * bool(cfg.get('dict_output')) + 3 * (cfg.get('defaults') is not None)
     return s
 
 
@@ -577,7 +615,7 @@ def signature(trace, violation):
 
 
 PROBES = ['row-frozen', 'row-recomputed-over-previous-value', 'state-loss-recompute', 'clock-at-midnight-edge', 'default-extends-or-fills',
-          'scalar-only-call', 'empty-join', 'expiry-equals-today(either outcome accepted)', 'call-after-backward-jump',
+          'scalar-only-call', 'empty-join', 'dict-output-call', 'expiry-equals-today(either outcome accepted)', 'call-after-backward-jump',
           'expired-without-previous-value-recomputed']
 TIERS = {'quick': {'runs': 12000, 'wallcap': 50}, 'thorough': {'runs': 500000, 'wallcap': 800}}
 COMPONENTS = {
